@@ -616,22 +616,27 @@ pub(crate) fn cut_add_transaction<'ctx>(
 }
 
 fn decl_harness(commodity_decl: bool) {
-    // which of the two names were already used (as canonical, by a posting / amount) before the declaration
+    // which of the three names were already used (as canonical, by a posting / amount) before the declaration
     let used_a = vk::bool();
     let used_b = vk::bool();
-    let with_alias = vk::bool();
-    vk::note(&|| format!("{} a{}; before it: a used {}, b used {}", if commodity_decl { "commodity" } else { "account" },
-        if with_alias { " / alias b" } else { "" }, used_a, used_b));
+    let used_c = vk::bool();
+    // the declaration carries two sub-directives; each is `alias b` / `alias c` or a comment
+    let with_b = vk::bool();
+    let with_c = vk::bool();
+    vk::note(&|| format!("{} a{}{}; before it: a used {}, b used {}, c used {}", if commodity_decl { "commodity" } else { "account" },
+        if with_b { " / alias b" } else { " / ; comment" }, if with_c { " / alias c" } else { " / ; comment" }, used_a, used_b, used_c));
     let mut ctx = new_ctx();
     let mut accum = ProcessAccumulator::new();
     use std::borrow::Cow;
     let entry: syntax::tracked::LedgerEntry = if commodity_decl {
-        let mut details = Vec::with_capacity(1);
-        if with_alias { details.push(syntax::CommodityDetail::Alias(Cow::Borrowed("b"))); }
+        let mut details = Vec::with_capacity(2);
+        details.push(if with_b { syntax::CommodityDetail::Alias(Cow::Borrowed("b")) } else { syntax::CommodityDetail::Comment(Cow::Borrowed("x")) });
+        details.push(if with_c { syntax::CommodityDetail::Alias(Cow::Borrowed("c")) } else { syntax::CommodityDetail::Comment(Cow::Borrowed("y")) });
         syntax::LedgerEntry::Commodity(syntax::CommodityDeclaration { name: Cow::Borrowed("a"), details })
     } else {
-        let mut details = Vec::with_capacity(1);
-        if with_alias { details.push(syntax::AccountDetail::Alias(Cow::Borrowed("b"))); }
+        let mut details = Vec::with_capacity(2);
+        details.push(if with_b { syntax::AccountDetail::Alias(Cow::Borrowed("b")) } else { syntax::AccountDetail::Comment(Cow::Borrowed("x")) });
+        details.push(if with_c { syntax::AccountDetail::Alias(Cow::Borrowed("c")) } else { syntax::AccountDetail::Comment(Cow::Borrowed("y")) });
         syntax::LedgerEntry::Account(syntax::AccountDeclaration { name: Cow::Borrowed("a"), details })
     };
     // identity = address of the interned string
@@ -640,29 +645,32 @@ fn decl_harness(commodity_decl: bool) {
     let id = |ctx: &mut ReportContext<'static>, n: &str| if commodity_decl { id_com(ctx, n) } else { id_acc(ctx, n) };
     let pre_a = if used_a { id(&mut ctx, "a") } else { 0 };
     let pre_b = if used_b { id(&mut ctx, "b") } else { 0 };
+    let pre_c = if used_c { id(&mut ctx, "c") } else { 0 };
     let r = accum.process(&mut ctx, &entry);
-    let conflict = with_alias && used_b; // b is already a canonical name: it cannot become an alias
+    // a name already canonical cannot become an alias - whichever sub-directive names it
+    let conflict = (with_b && used_b) || (with_c && used_c);
     match &r {
         Err(_) => assert!(conflict, "C12: a consistent declaration was rejected"),
         Ok(()) => {
             assert!(!conflict, "C12: declaring as alias a name already in use as a canonical name was accepted (balances would split or merge silently)");
             let a = id(&mut ctx, "a");
             let b = id(&mut ctx, "b");
+            let c = id(&mut ctx, "c");
             if used_a {
                 assert!(a == pre_a, "C12: declaring a name that was already used changed what it refers to");
             }
-            if with_alias {
-                assert!(a == b, "C12: an alias declared after the first use of its canonical name does not resolve to it");
-            } else {
-                assert!(a != b, "C12: two unrelated names were merged");
-                if used_b {
-                    assert!(b == pre_b, "C12: an unrelated name changed what it refers to");
-                }
+            assert!((a == b) == with_b, "C12: alias b does not resolve to its canonical name (or an undeclared name was merged)");
+            assert!((a == c) == with_c, "C12: alias c does not resolve to its canonical name (or an undeclared name was merged)");
+            if !with_b && used_b {
+                assert!(b == pre_b, "C12: an unrelated name changed what it refers to");
+            }
+            if !with_c && used_c {
+                assert!(c == pre_c, "C12: an unrelated name changed what it refers to");
             }
         }
     }
-    vk_cover!(used_a && with_alias && !used_b && r.is_ok(), "alias declared after the first use of the canonical name");
-    vk_cover!(conflict, "alias already in use as a canonical name");
+    vk_cover!(used_a && with_b && with_c && !used_b && !used_c && r.is_ok(), "two aliases declared after the first use of the canonical name");
+    vk_cover!(with_b && used_b && with_c && !used_c, "first alias conflicts, a later one does not");
     core::mem::forget(r);
     core::mem::forget(entry);
     core::mem::forget(accum);
